@@ -19,9 +19,8 @@ import PpciVerif.Model.IRText
 * no inline assembly (open finding: neither format can express it).
 
 `fragText fmt m` adds what the *text* format needs: identifiers that the tokenizer reads as
-one ID token, float constants whose printed form `fmt b` is read as one FLOAT token
-(excludes `inf`, `-inf`, `nan`: open finding), and the first operand of a `rol`/`ror` is not
-spelled like one of the reader's keywords.
+one ID token, and float constants whose printed form `fmt b` is ASCII and is read as one token (a FLOAT
+literal, or the quoted string of `float 'inf'` / `float 'nan'`).
 -/
 namespace Model.IRFrag
 open Spec.IR Model.IRBuild Model.IRText
@@ -120,8 +119,6 @@ def floatTextOk (fmt : Nat → List Char) (b : Nat) : Bool :=
 
 def instrText (fmt : Nat → List Char) : Instr → Bool
   | .const _ _ (.fbits b) => floatTextOk fmt b
-  | .binop _ _ .rol a _ => !assignKeywords.contains (opName a)
-  | .binop _ _ .ror a _ => !assignKeywords.contains (opName a)
   | _ => true
 
 def instrNames (i : Instr) : List String :=
@@ -161,8 +158,6 @@ def fragReport (fmt : Nat → List Char) (m : Module) : List String :=
     (if is.all (fun i => nodupB (i.phiIns.map (·.1))) then [] else ["phi-keys"]) ++
     (if is.all (fun i => match i with | .const _ _ (.fbits b) => floatTextOk fmt b | _ => true) then []
      else ["float-text"]) ++
-    (if is.all (fun i => match i with | .const _ _ (.fbits _) => true | _ => instrText fmt i) then []
-     else ["rol-keyword"]) ++
     (if identOk f.name && f.params.all (fun p => identOk p.1) &&
         f.blocks.all (fun b => identOk b.name && b.instrs.all (fun i => (instrNames i).all identOk)) then []
      else ["identifier"]))) ++
